@@ -159,6 +159,11 @@ class PDFStreamParser(PDFParser):
                     self.push((pos, obj))
             return
 
+        elif token is self.KEYWORD_NULL:
+            # null object (same as PDFParser.do_keyword)
+            self.push((pos, None))
+            return
+
         elif token in (self.KEYWORD_OBJ, self.KEYWORD_ENDOBJ):
             if settings.STRICT:
                 # See PDF Spec 3.4.6: Only the object values are stored in the
